@@ -872,6 +872,66 @@ impl Suite for WireSuite {
             tags2.push(format!("chunks:{}", match chunks.len() { 0 => "0", 1 => "1", 2..=3 => "2-3", 4..=9 => "4-9", _ => "10+" }));
             cases.push(Case { input: mk_case(mode, cfg, &chunks, &total), tags: tags2 });
         }
+        if ctx.thorough {
+            // exhaustive request sequences over a reduced alphabet, lengths 0..4
+            let cfg = &cfgs[1];
+            let alphabet: Vec<Value> = vec![
+                json!({"method":"org.varlink.service.GetInfo"}),
+                json!({"method":"org.varlink.service.GetInfo","oneway":true}),
+                json!({"method":"nodot"}),
+                json!({"method":"no.such.M","more":true}),
+                json!({"method":"org.example.s.Run","parameters":{"script":[{"op":"reply","p":{"k":1}}]}}),
+                json!({"method":"org.example.s.Run","more":true,"parameters":{"script":[{"op":"cont","v":true},{"op":"reply"},{"op":"cont","v":false},{"op":"reply"}]}}),
+                json!({"method":"org.example.s.Run","parameters":{"script":[{"op":"cont","v":true},{"op":"reply"}]}}),
+                json!({"method":"org.example.vtest.Echo","parameters":{"token":5}}),
+            ];
+            let enc: Vec<Vec<u8>> = alphabet.iter().map(|v| serde_json::to_vec(v).unwrap()).collect();
+            let k = enc.len();
+            for len in 0..=4usize {
+                let total_n = k.pow(len as u32);
+                for mut idx in 0..total_n {
+                    let mut total = Vec::new();
+                    for _ in 0..len {
+                        total.extend_from_slice(&enc[idx % k]);
+                        total.push(0);
+                        idx /= k;
+                    }
+                    let chunks = if total.is_empty() { vec![] } else { vec![total.clone()] };
+                    cases.push(Case { input: mk_case("whole", cfg, &chunks, &total), tags: vec!["exhaustive-sequences".into(), format!("exh-len:{}", len)] });
+                }
+            }
+            // every pair of cut points of a few short streams
+            for _ in 0..3 {
+                let cfg = rng.pick(&cfgs);
+                tok += 1;
+                let a = gen_request(&mut rng, cfg, &format!("t{}z", tok));
+                tok += 1;
+                let b = gen_request(&mut rng, cfg, &format!("t{}z", tok));
+                let total = stream_of(&[a, b]);
+                if total.len() <= 200 {
+                    for c1 in 0..=total.len() {
+                        for c2 in c1..=total.len() {
+                            let chunks = cut(&total, &[c1, c2]);
+                            cases.push(Case { input: mk_case("feed", cfg, &chunks, &total), tags: vec!["systematic-cut-pairs".into()] });
+                        }
+                    }
+                }
+            }
+            // hostile nesting depths around and far beyond serde_json's recursion limit
+            for d in [127usize, 128, 129, 1000, 10000] {
+                let mut s = String::from("{\"method\":\"org.varlink.service.GetInfo\",\"parameters\":");
+                for _ in 0..d { s.push('['); }
+                for _ in 0..d { s.push(']'); }
+                s.push('}');
+                let mut total = serde_json::to_vec(&json!({"method":"org.varlink.service.GetInfo"})).unwrap();
+                total.push(0);
+                total.extend_from_slice(s.as_bytes());
+                total.push(0);
+                total.extend_from_slice(&serde_json::to_vec(&json!({"method":"org.varlink.service.GetInfo","parameters":{"token":"t0z"}})).unwrap());
+                total.push(0);
+                cases.push(Case { input: mk_case("whole", &cfgs[0], &[total.clone()], &total), tags: vec![format!("nesting:{}", d)] });
+            }
+        }
         // systematic single cuts of a few short streams (every cut point)
         let n_sys = if ctx.thorough { 40 } else { 6 };
         for _ in 0..n_sys {
